@@ -283,7 +283,7 @@ void vf_harness(void) {
     entry='String_ctor_int', unwind=13, timeout=300, replay=replay.from_trace('C03/driver.cpp', ['x'], lambda v: ['itoa', v['x']]),
     desc='String(int): canonical decimal text (sign, no leading zero, digits only, <= 11 chars) within capacity for all 2^32 values; the value round trip is NOT decided (SAT does not finish on the divide/multiply chain)',
     functions=['String::String(int)', 'myitoa'],
-    planted=[('ctor_int', r'String_alloc\(self, 11\)', 'String_alloc(self, 9)')],
+    planted=[('ctor_int', r'self->_len = ', 'self->_len = 1 + ')],   # (alloc(11) -> alloc(9) was tried first: equivalent, both are inline)
 )
 
 ctor_long = Unit(
@@ -699,7 +699,7 @@ void vf_harness(void) {
     entry=None, unwind=18, floor=2, expect=['assertion'],
     desc='String::trimmed() on EVERY inline string: returns substring(first non-white-space, last non-white-space + 1), arguments in range also for empty and whitespace-only strings',
     functions=['String::trimmed'], trusted=['substring by its contract (unit String_substring)'],
-    planted=[('body', r'j>=i', 'j>i')],
+    planted=[('body', r'g_to = j\+1', 'g_to = j')],
 )
 UNITS += [trimmed_unit]
 
@@ -743,3 +743,7 @@ UNITS += [ctor_fmt]
 _bat = replay.battery('C03/driver.cpp', ['battery'])
 for _u in UNITS:
     _u.replay = replay.first_of(_u.replay, _bat) if _u.replay else _bat
+
+# planted one-token breaks for the newer units (thorough tier: each must make an obligation fail)
+trim_unit.planted = [('body', r'_len = j - i \+ 1', '_len = j - i')]   # (j >= i -> j > i is equivalent: s[i] is known not to be white space)
+replace_turn.planted = [('rp', r'i=j\+m; \}', 'i=j+1; }')]
